@@ -471,6 +471,69 @@ fn run_n<const N: usize>(c: &mut Ctx, insts: usize, msgs: usize) {
     run_group_n::<G2Projective, N>(c, insts, msgs);
 }
 
+/// Parameters *generated* under crafted randomness (a zero window at each draw of
+/// PedersenParameters::new): whatever the stream, an opening that differs from the committed one in
+/// the blinding factor or in one coordinate must be refused.
+fn generated_under_zero_windows<const N: usize>(c: &mut Ctx) {
+    use crate::srng::ScriptRng;
+    use zkchannels_crypto::{BlindingFactor, Message};
+    for g2 in [false, true] {
+        let name = format!("generated-under-zero-window/{}/N={}", if g2 { "G2" } else { "G1" }, N);
+        c.case(&name, |c| {
+            let mut rng = c.rng(&name);
+            let mut seed = [0u8; 32];
+            rng.fill_bytes(&mut seed);
+            let mut dry = ScriptRng::new(seed);
+            if g2 {
+                let _ = PedersenParameters::<G2Projective, N>::new(&mut dry);
+            } else {
+                let _ = PedersenParameters::<G1Projective, N>::new(&mut dry);
+            }
+            for d in 0..dry.draws() {
+                let mut sr = ScriptRng::new(seed);
+                sr.inject(d, vec![0u8; dry.log[d].len]);
+                let mut vals = [Scalar::zero(); N];
+                for v in vals.iter_mut() {
+                    *v = Scalar::random(&mut rng);
+                }
+                let msg = Message::new(vals);
+                let bf = BlindingFactor::new(&mut rng);
+                let bf2 = BlindingFactor::new(&mut rng);
+                let mut vals2 = vals;
+                vals2[d % N] += Scalar::one();
+                let msg2 = Message::new(vals2);
+                c.eval();
+                c.distinct(&format!("{}/draw{}", name, d));
+                let r = crate::ctx::guard(|| {
+                    if g2 {
+                        let p = PedersenParameters::<G2Projective, N>::new(&mut sr);
+                        let com = msg.commit(&p, bf);
+                        (com.verify_opening(&p, bf, &msg), com.verify_opening(&p, bf2, &msg), com.verify_opening(&p, bf, &msg2))
+                    } else {
+                        let p = PedersenParameters::<G1Projective, N>::new(&mut sr);
+                        let com = msg.commit(&p, bf);
+                        (com.verify_opening(&p, bf, &msg), com.verify_opening(&p, bf2, &msg), com.verify_opening(&p, bf, &msg2))
+                    }
+                });
+                match r {
+                    Err(p) => c.violation(&format!("C09 generator-panicked group={} N={} loc={}", if g2 { "G2" } else { "G1" }, N, crate::props::util::repo_rel(&p.location)), json!({"draw": d, "panic": p.message})),
+                    Ok((own, other_bf, other_coord)) => {
+                        if !own || other_bf || other_coord {
+                            c.violation(
+                                &format!("C09 generated-parameters-do-not-bind group={} N={}", if g2 { "G2" } else { "G1" }, N),
+                                json!({"zero_window_at_draw": d, "draw_length": dry.log[d].len, "original_opening_accepted": own,
+                                       "other_blinding_factor_accepted": other_bf, "changed_coordinate_accepted": other_coord}),
+                            );
+                        } else {
+                            c.count("generated-under-zero-window:binds", 1);
+                        }
+                    }
+                }
+            }
+        });
+    }
+}
+
 pub fn run(c: &mut Ctx) {
     c.note(
         "rule",
@@ -484,4 +547,6 @@ pub fn run(c: &mut Ctx) {
     run_n::<5>(c, insts, msgs);
     run_n::<8>(c, insts, msgs);
     run_n::<13>(c, insts, msgs);
+    generated_under_zero_windows::<1>(c);
+    generated_under_zero_windows::<3>(c);
 }
